@@ -8,6 +8,7 @@ package local
 //@ ghost released(ref) int
 
 //@ func (*blockDeviceBackedBlock).Release
+//@   opt contents
 //@   requires pb.usecount >= 1 && pb.blockAllocator != nil && held(pb.blockAllocator.lock) == 0
 //@   requires len(pb.blockAllocator.freeOffsets) <= 1000000000
 //@   modifies released(pb), pb.usecount, pb.blockAllocator.freeOffsets
